@@ -43,6 +43,7 @@ type Outcome struct {
 	SimSec float64
 
 	HarnessErr string
+	Aborted    bool // a call hung: the rest of the run was skipped
 }
 
 func NewOutcome(keepLog bool) *Outcome {
@@ -81,6 +82,15 @@ func (o *Outcome) Violate(prop, clause, detail string, attrs map[string]string) 
 	v.Known = matchKnown(v)
 	o.Viol = append(o.Viol, v)
 	o.Logf("VIOLATION %s/%s %s", prop, clause, detail)
+}
+
+// ViolateQuiet records a violation whose occurrence depends on real time or
+// on sampled memory: it is kept out of the event log so that the determinism
+// self-test compares only what is deterministic.
+func (o *Outcome) ViolateQuiet(prop, clause, detail string, attrs map[string]string) {
+	v := Violation{Prop: prop, Clause: clause, Detail: detail, Attrs: attrs}
+	v.Known = matchKnown(v)
+	o.Viol = append(o.Viol, v)
 }
 
 // Sig records that the oracle of prop was evaluated on a non-trivial case with
@@ -358,6 +368,7 @@ type Result struct {
 	SelfTests  int                 `json:"selftests"`
 	HarnessErr string              `json:"harness_error,omitempty"`
 	Replayed   *ReplayResult       `json:"replayed,omitempty"`
+	Unreproduced []string          `json:"unreproduced,omitempty"`
 	FirstSeed  uint64              `json:"first_seed"`
 	LastSeed   uint64              `json:"last_seed"`
 }
@@ -486,11 +497,16 @@ func RunJob(t *testing.T, job *Job) *Result {
 			}
 			reported[k] = true
 			min, cand := plan, 0
-			if !job.NoMin {
+			if !job.NoMin && !o.Aborted {
 				min, cand = Minimise(t, d, plan, seed, k, 2000, 60*time.Second)
 			}
 			om := RunPlan(t, d, min, seed, true)
 			mv := hasKey(om, k)
+			if mv == nil && (v.Clause == "memory" || v.Clause == "no-termination") {
+				// real-time / sampled-memory violations must reproduce to count
+				res.Unreproduced = append(res.Unreproduced, k+": "+v.Detail)
+				continue
+			}
 			if mv == nil {
 				// cannot happen: Minimise only accepts failing candidates
 				res.HarnessErr = "minimised plan does not reproduce " + k
@@ -502,6 +518,9 @@ func RunJob(t *testing.T, job *Job) *Result {
 			}
 			path := saveReplay(job, d, plan, min, seed, i, *mv, om, cand)
 			res.Violations = append(res.Violations, ViolationReport{Violation: *mv, Replay: path, Steps: min.Len(), Seed: seed, RunIndex: i})
+		}
+		if o.Aborted {
+			break // an abandoned goroutine may still be running: this worker stops here
 		}
 	}
 	if longest != nil {
